@@ -396,6 +396,8 @@ class Interp:
         self.dynamic_globals = prog._dynamic_globals
         self.rec_assume = {}  # qualname -> summary (None = bottom)
         self.rec_hits = set()
+        self.rec_calls = []
+        self.loop_stack = []
         self.cur_module = None
         self.cur_func = None
         from . import models
@@ -742,6 +744,8 @@ class Interp:
         function's inductive summary (fixpoint computed by codec.py)."""
         self.calls.append((fi.short + ' [recursive]', self.chain()))
         self.rec_hits.add(fi.qualname)
+        self.rec_calls.append((fi, list(args), self.chain(), self.site(node),
+                               state.kn.copy()))
         if fi.qualname in self.rec_assume:
             summ = self.rec_assume[fi.qualname]
         else:
@@ -1282,6 +1286,7 @@ class Interp:
         eff0, calls0, loops0 = len(self.effects), len(self.calls), \
             len(self.loops)
         notes0 = len(self.notes)
+        rec0, hand0 = len(self.rec_calls), len(self.handled)
         store_before = dict(probe.store)
         pinfo = self._loop_body_once(st, probe, frame, iterable, loop_id)
         mutated = set()
@@ -1294,8 +1299,10 @@ class Interp:
         del self.effects[eff0:]
         del self.calls[calls0:]
         del self.loops[loops0:]
-        # monotone integer variables: every assignment in the body is
-        # v += e / v = v + e with e >= 0 in the probe pass
+        del self.notes[notes0:]
+        del self.rec_calls[rec0:]
+        del self.handled[hand0:]
+        # monotone integer variables: the probe pass showed increments >= 0
         mono = pinfo['nonneg_incs']
         # pass 2: havoc with inferred facts, run once for real
         hstate = state
@@ -1322,8 +1329,12 @@ class Interp:
                     o.cls, {a: Sym('loopattr', loop_id, i, a)
                             for a in o.attrs}, o.shared, o.origin)
         entry = hstate.fork()
-        info = self._loop_body_once(st, hstate.fork(), frame, iterable,
-                                    loop_id, outs, entry)
+        self.loop_stack.append((loop_id, self.cur_func, len(self.stack)))
+        try:
+            info = self._loop_body_once(st, hstate.fork(), frame, iterable,
+                                        loop_id, outs, entry)
+        finally:
+            self.loop_stack.pop()
         # exit state
         finals = []
         if isinstance(st, ast.While):
@@ -1381,6 +1392,8 @@ class Interp:
                 'raises': [o for o in res if o.kind == 'raise'],
                 'returns': [o for o in res if o.kind == 'return'],
                 'entry': entry,
+                'enclosing': list(self.loop_stack[:-1]),
+                'depth': len(self.stack),
             })
         for k, v0 in start_env.items():
             if isinstance(v0, Sym) and v0.op == 'typed':
